@@ -279,7 +279,7 @@ func accessPath(v ssa.Value) string {
 	case *ssa.Lookup:
 		return accessPath(x.X) + "[" + accessPath(x.Index) + "]"
 	case *ssa.Phi:
-		return "phi:" + x.Name()
+		return "phi:" + x.Comment + "@" + x.Name()
 	}
 	return v.Name()
 }
@@ -849,4 +849,9 @@ func factCallTo(b *ssa.BasicBlock, f *ssa.Function, truth bool) *ssa.Call {
 		}
 	}
 	return nil
+}
+
+// isInitFn: the synthetic package initialiser or a declared func init().
+func isInitFn(f *ssa.Function) bool {
+	return f.Parent() == nil && (f.Name() == "init" || strings.HasPrefix(f.Name(), "init#"))
 }
